@@ -96,6 +96,9 @@ def qconst(x, ty):
             if x != int(x): raise Untranslatable(f'float literal {x} in integer context')
             x = int(x)
         return f'({x})%Z'
+    if ty == 'N':
+        if isinstance(x, float) or x < 0: raise Untranslatable(f'literal {x} in nat context')
+        return f'({x})%nat'
     fr = Fraction(repr(x)) if isinstance(x, float) else Fraction(x)
     n, d = fr.numerator, fr.denominator
     if ty == 'Q':
@@ -110,13 +113,15 @@ ARITH = {
     'Q': {ast.Add: 'Qplus', ast.Sub: 'Qminus', ast.Mult: 'Qmult', ast.Div: 'Qdiv'},
     'Z': {ast.Add: 'Z.add', ast.Sub: 'Z.sub', ast.Mult: 'Z.mul', ast.FloorDiv: 'Z.div', ast.Mod: 'Z.modulo'},
     'R': {ast.Add: 'Rplus', ast.Sub: 'Rminus', ast.Mult: 'Rmult', ast.Div: 'Rdiv'},
+    'N': {ast.Add: 'Nat.add', ast.Mult: 'Nat.mul', ast.FloorDiv: 'Nat.div', ast.Mod: 'Nat.modulo'},
 }
 CMP = {  # helper names defined in SS.Model.Prelude
     'Q': {ast.Eq: 'Qeqb', ast.NotEq: 'Qneqb', ast.Lt: 'Qltb', ast.LtE: 'Qleb', ast.Gt: 'Qgtb', ast.GtE: 'Qgeb'},
     'Z': {ast.Eq: 'Z.eqb', ast.NotEq: 'Zneqb', ast.Lt: 'Z.ltb', ast.LtE: 'Z.leb', ast.Gt: 'Z.gtb', ast.GtE: 'Z.geb'},
     'R': {ast.Eq: 'Reqb', ast.NotEq: 'Rneqb', ast.Lt: 'Rltb', ast.LtE: 'Rleb', ast.Gt: 'Rgtb', ast.GtE: 'Rgeb'},
+    'N': {ast.Eq: 'Nat.eqb', ast.NotEq: 'Nneqb', ast.Lt: 'Nat.ltb', ast.LtE: 'Nat.leb', ast.Gt: 'Ngtb', ast.GtE: 'Ngeb'},
 }
-NUM = ('Q', 'Z', 'R')
+NUM = ('Q', 'Z', 'R', 'N')
 
 
 class Env:
@@ -358,7 +363,7 @@ class Tr:
             if ty != ret_type: raise Untranslatable(f'{fnode.name}: falls off with {ty}')
             return f'(Ok {t})'
         body = self.block(fnode.body, env, k)
-        cret = {'Q': 'Q', 'Z': 'Z', 'R': 'R', 'B': 'bool'}.get(ret_type, ret_type)
+        cret = {'Q': 'Q', 'Z': 'Z', 'R': 'R', 'B': 'bool', 'N': 'nat'}.get(ret_type, ret_type)
         return f'Definition {coq_name} {" ".join(bs)} : res {cret} :=\n {body}.\n'
 
 
